@@ -248,6 +248,44 @@ def run(ctx):
                     ctx.violation(f"{label}: closed image after failure program is inconsistent: {fnd[0]}", "final-fsck:" + history.classify_finding(fnd[0]),
                                   dict(volume=meta, ops=[o[:3] for o in done[-30:]], findings=fnd[:6]))
                 ctx.sample(dict(volume=label, free_clusters_before_failures=free, failing_candidates=[c[:2] for c in cand[:6]]))
+    # the read-only cause: every mutating call on a read-only mount fails, and the tree it shows is exactly what it was (C09-m7: a refused removal
+    # dropped the entry from the in-memory list for the rest of the mount)
+    from . import C10
+    for label, thunk in [v for v in gen.volumes(ctx.tier) if v[0] in ("mkfs12-64k", "build32-tiny", "build16-4100")]:
+        if ctx.time_left() < 10:
+            break
+        rng2 = random.Random(ctx.rng.randrange(1 << 62))
+        img_ro, meta_ro = C10.populated(label, thunk, rng2)
+        ir = ImplRun(img_ro, read_only=True)
+        with ScriptedClock() as clk:
+            res, _ = ir.mount()
+            if res[0] != "ok":
+                continue
+            w0 = ir.walk()
+            before = tree_sig(w0)
+            files = sorted(p for p, t in w0.items() if t[0] == "f")
+            dirs = sorted(p for p, t in w0.items() if t[0] == "d")
+            cand = [["remove", f] for f in files[:3]] + [["removedir", d] for d in dirs[:2]] + [["removetree", d] for d in dirs[:2]] + \
+                   [["create", "/ro new.txt"], ["makedir", "/ro new dir"], ["create", files[0], 1] if files else ["create", "/x", 1],
+                    ["setinfo", files[0] if files else "/x", 1704067200, 1704067300, None, (2024, 1, 1, 0, 0, 0), (2024, 1, 1, 0, 1, 40), None]]
+            for k, op in enumerate(cand):
+                ctx.evaluations += 1
+                clk.t = clock_tuple(k + 1)
+                r, _ = ir.op(op)
+                ctx.dist[f"ro:{op[0]}:{r[1] if r[0] == 'err' else 'ok'}"] += 1
+                rep = dict(volume=meta_ro, volume_label=label, mount=dict(read_only=True), ops=[op])
+                if r[0] == "ok" and not (op[0] == "create" and r[1] is False):
+                    continue        # (accepting a mutation on a read-only mount is C10's finding)
+                ctx.nontrivial.add((label, "ro", op[0], str(r[1])))
+                try:
+                    after = tree_sig(ir.walk())
+                except Exception as e:  # noqa
+                    ctx.violation(f"{label}: after {op[:2]} was refused on the read-only mount the tree cannot be read: {type(e).__name__}: {e}", f"fail-wedged:{op[0]}:ro", rep)
+                    break
+                if after != before:
+                    dd = sorted(set(after.items()) ^ set(before.items()))[:3]
+                    ctx.violation(f"{label}: {op[:2]}, refused on the read-only mount ({r[1]}), changed the visible tree: {dd[0][0]!r}", f"fail-tree-changed:{op[0]}:ro", dict(rep, diff=str(dd)))
+                    break
     # the model side of the tie: ordinary histories on nearly-full volumes (errors included) must agree write for write
     _hist.run_histories(ctx, ("internal",), nprog=ctx.scale(8, 60), nops=ctx.scale(40, 80),
                         vol_filter=lambda l: l in ("mkfs12-64k", "build12-full-fat", "build32-tiny", "build12-spc2-nf1"))
